@@ -514,12 +514,18 @@ func callMatches(in ssa.Instruction, name string) bool {
 	if strings.HasPrefix(name, "invoke:") {
 		return cc.IsInvoke() && cc.Method.Name() == name[len("invoke:"):]
 	}
+	if cc.IsInvoke() && strings.HasPrefix(name, "(") && freshInterfaceCall(cc) && cc.Method.Name() == name[strings.LastIndex(name, ".")+1:] {
+		return true
+	}
 	if strings.HasPrefix(name, "builtin:") {
 		b, ok := cc.Value.(*ssa.Builtin)
 		return ok && b.Name() == name[len("builtin:"):]
 	}
 	f := cc.StaticCallee()
 	if f == nil {
+		if m, _ := devirtualise(cc); m != nil && FnName(m) == name {
+			return true
+		}
 		return false
 	}
 	if FnName(f) == name {
